@@ -83,6 +83,7 @@ package http
 //@ func (*confirmable).GetStarted inline
 //@ func (*Server).routeValidate
 //@   before mapupdate respMap assert answers-are-gatekeeper-verdicts: arg1 == f.Name && arg2 == lastret(sts.GateKeeper.GetFileStatus, 0) && lastarg(sts.GateKeeper.GetFileStatus, 1) == f.Name
+//@   loop 0 backedge assert every-polled-file-is-answered: has(respMap, f.Name)
 
 // ---------------------------------------------------------------- verdict codes of the poll answer (C02)
 
